@@ -65,6 +65,16 @@ def run(res, f, tier):
     # conditions of if/and/or and equality: rows compared with the evaluation-order spec (shared with C05)
     mm, st = dispatch.compare_rows(t, classes=("other",), kinds=("If", "And", "Or"), tags_result_only=True)
     mm2, _ = dispatch.compare_rows(t, kinds=("Equals", "NotEquals"))
+    # equality compares structurally (C03: different types are different values, no conversion): every result that is
+    # not a constant or a propagated operand error must be the derived comparison of the two operand values
+    import evalorder as _eo
+    for m_ in mm2:
+        c0_, c1_ = _eo.okv(_eo.child(m_["kind"], 0)), _eo.okv(_eo.child(m_["kind"], 1))
+        want_ = "Value::eq(%s, %s)" % (c0_, c1_)
+        odd = [u for u in m_["unexpected"] if isinstance(u, dict) and u.get("result", "").startswith("Ok(") and u["result"] not in ("Ok(Bool(True))", "Ok(Bool(False))")
+               and u["result"] not in ("Ok(Bool(%s))" % want_, "Ok(Bool(Not(%s)))" % want_)]
+        if odd:
+            mm = mm + [{"kind": m_["kind"], "missing": m_["missing"], "unexpected": odd}]
     # equality: no path may end in a type error, whatever the operand types
     for kind in ("Equals", "NotEquals"):
         for p in t["rows"].get(kind, []):
